@@ -15,6 +15,7 @@ RUN_FILES = ["Model/C07_run.v"]
 NAN = float("nan")
 INF = float("inf")
 STUB_PROJ = {"proj": "merc", "lon_0": 0, "ellps": "WGS84"}
+ODD_RES = [3, 5, 7, 11, 13, 49, 98, 103, 107, 161, 1000, 4000]
 REAL_AREAS = [
     ({"proj": "laea", "lat_0": 60, "lon_0": 10, "ellps": "WGS84"}, (-1.0e6, -1.2e6, 1.4e6, 0.9e6), (-25, 45, 35, 75)),
     ({"proj": "merc", "lon_0": 0, "ellps": "WGS84"}, (-2.0e6, 1.0e6, 3.0e6, 6.0e6), (-30, 0, 40, 55)),
@@ -65,8 +66,16 @@ def gen_case(r, big=False, nchunkings=3):
     wmax = 8 if big else 6
     if mode == "stub":
         w, h = r.randint(1, wmax), r.randint(1, wmax)
-        dyadic = r.random() < 0.8
-        if dyadic:
+        kind = r.random()
+        dyadic = kind < 0.8          # "exact" grid: every border and every generated point is exactly representable
+        intres = kind < 0.3
+        if intres:
+            # pixel size = odd integer * 2^e: not a power of two (its reciprocal is inexact in binary64), yet all
+            # borders xmin + k*res and the differences x - xmin are exact, so the true cell is decided exactly
+            dx, dy = (float(r.choice(ODD_RES)) * 2.0 ** r.randint(-2, 1) for _ in range(2))
+            x0, y0 = r.randint(-12, 12) * dx, r.randint(-12, 12) * dy
+            x1, y1 = x0 + w * dx, y0 + h * dy
+        elif dyadic:
             dx, dy = 2.0 ** r.randint(-2, 3), 2.0 ** r.randint(-2, 3)
             x0, y0 = r.randint(-12, 12) * 2.0 ** r.randint(-1, 2), r.randint(-12, 12) * 2.0 ** r.randint(-1, 2)
             x1, y1 = x0 + w * dx, y0 + h * dy
@@ -77,7 +86,7 @@ def gen_case(r, big=False, nchunkings=3):
         xmin, xmax = (x1, x0) if flipx else (x0, x1)
         ymin, ymax = (y1, y0) if flipy else (y0, y1)
         case["area"] = {"proj": STUB_PROJ, "extent": [hexf(v) for v in (xmin, ymin, xmax, ymax)], "w": w, "h": h}
-        case["aclass"] = ("dyadic" if dyadic else "general") + ("_flipx" if flipx else "") + ("_flipy" if flipy else "")
+        case["aclass"] = ("intres" if intres else "dyadic" if dyadic else "general") + ("_flipx" if flipx else "") + ("_flipy" if flipy else "")
         px = (xmax - xmin) / w
         py = (ymax - ymin) / h
         n = r.choice([0, 1, 2, 3]) if r.random() < 0.08 else r.randint(4, 60 if big else 36)
@@ -161,11 +170,14 @@ def gen_case(r, big=False, nchunkings=3):
     return case
 
 
-def gen_lattice_case(r, w, h, sub, flipx, flipy, nchunkings):
+def gen_lattice_case(r, w, h, sub, flipx, flipy, nchunkings, res=None):
     """Exhaustive small scope: every point of the 1/sub-pixel lattice from one pixel outside to one pixel
     outside on the other side, both axes: all border / corner / outer-edge combinations of a w x h grid."""
     dx, dy = 2.0 ** r.randint(-1, 2), 2.0 ** r.randint(-1, 2)
     x0, y0 = float(r.randint(-6, 6)), float(r.randint(-6, 6))
+    if res is not None:
+        dx, dy = float(res[0]), float(res[1])
+        x0, y0 = r.randint(-6, 6) * dx, r.randint(-6, 6) * dy
     x1, y1 = x0 + w * dx, y0 + h * dy
     xmin, xmax = (x1, x0) if flipx else (x0, x1)
     ymin, ymax = (y1, y0) if flipy else (y0, y1)
@@ -181,7 +193,7 @@ def gen_lattice_case(r, w, h, sub, flipx, flipy, nchunkings):
     r.shuffle(order)
     xs, ys, classes = [xs[k] for k in order], [ys[k] for k in order], [classes[k] for k in order]
     n = len(xs)
-    case = {"mode": "stub", "aclass": "lattice" + ("_flipx" if flipx else "") + ("_flipy" if flipy else ""),
+    case = {"mode": "stub", "aclass": ("lattice" if res is None else "lattice_intres") + ("_flipx" if flipx else "") + ("_flipy" if flipy else ""),
             "area": {"proj": STUB_PROJ, "extent": [hexf(v) for v in (xmin, ymin, xmax, ymax)], "w": w, "h": h},
             "xs": [hexf(v) for v in xs], "ys": [hexf(v) for v in ys], "strict": [True] * n, "classes": classes, "shape": [n],
             "fill": hexf(NAN), "skipna": r.random() < 0.5, "ebv": hexf(0.0), "ffill": hexf(NAN)}
@@ -461,7 +473,8 @@ def run_impl(ctx, cases, kernels=None, shards=8):
 
 def run(ctx):
     ctx.rule = ("exhaustive half-pixel (quick) / quarter-pixel (thorough) lattices over small dyadic grids in all four extent "
-                "orientations (every border, corner and outer-edge position); PRNG cases: 80% with PROJ replaced by the identity table (projected coordinates given directly) on dyadic "
+                "orientations (every border, corner and outer-edge position), and over grids whose pixel size is a non-dyadic integer "
+                "(49, 98, 103, 107, 161, ...: inexact reciprocal, exactly representable borders); PRNG cases: 80% with PROJ replaced by the identity table (projected coordinates given directly) on dyadic "
                 "(exact in binary64) or general grids incl. flipped extents, 20% through real PROJ (laea, merc, stere, longlat, eqc); "
                 "points inside / exactly on cell borders and outer edges / one ulp beside them / outside / NaN, inf, 1e30, 2^63, -0.0; "
                 "integer-valued data with fill markers and NaN (sum/average only), fill_value, skipna, empty_bucket_value, category "
@@ -472,6 +485,9 @@ def run(ctx):
     ncases = ctx.n(240, 1500)
     cases = [gen_lattice_case(r, w, h, ctx.n(2, 4), fx, fy, ctx.n(2, 3))
              for (w, h) in ctx.n([(2, 2)], [(2, 2), (3, 2), (1, 3)]) for fx in (False, True) for fy in (False, True)]
+    pairs = [(49, 107), (98, 161), (103, 7)] + ctx.n([], [(161, 49), (13, 98), (107, 103), (1000, 4000)])
+    cases += [gen_lattice_case(r, r.randint(2, 6), r.randint(2, 6), 2, fx, fy, ctx.n(2, 3), res=pr)
+              for pr in pairs for (fx, fy) in ((False, False), (True, True))]
     cases += [gen_case(r, big=ctx.thorough, nchunkings=ctx.n(2, 3)) for _ in range(ncases)]
     kernels = gen_kernels(r, ctx.n(200, 3000))
     t0 = time.time()
